@@ -30,6 +30,7 @@ import (
 	erc20keeper "github.com/Canto-Network/Canto/v8/x/erc20/keeper"
 	erc20types "github.com/Canto-Network/Canto/v8/x/erc20/types"
 	"github.com/Canto-Network/Canto/v8/x/onboarding"
+	onboardingkeeper "github.com/Canto-Network/Canto/v8/x/onboarding/keeper"
 	onboardingtypes "github.com/Canto-Network/Canto/v8/x/onboarding/types"
 )
 
@@ -55,6 +56,7 @@ type obSuite struct {
 	mw    onboarding.IBCMiddleware
 	ek    erc20keeper.Keeper
 	csms  coinswaptypes.MsgServer
+	obms  onboardingtypes.MsgServer // one per application instance, as app.go wires it
 	std   string
 	coins []obCoin
 	fresh int
@@ -197,6 +199,7 @@ func (s *obSuite) newWorld() {
 	w := s.w
 	s.cs = &csSuite{w: w, r: s.r, t: s.t, stat: map[string]int{}}
 	s.csms = coinswapkeeper.NewMsgServerImpl(w.App.CoinswapKeeper)
+	s.obms = onboardingkeeper.NewMsgServerImpl(*w.App.OnboardingKeeper)
 	std, _ := w.App.CoinswapKeeper.GetStandardDenom(w.Ctx)
 	if std != s.std {
 		panic("unexpected standard denom " + std)
@@ -441,6 +444,65 @@ func (s *obSuite) emit(kind, args, outcome, resp, preCs, preOb string, pre Snap)
 	s.t.seq++
 	post := s.w.Snapshot()
 	s.t.Line(fmt.Sprintf("O %d %s %s => %s %s | %s %s %s", s.t.seq, kind, args, outcome, resp, s.cs.modDelta(preCs), obDelta(preOb, s.obState()), Delta(pre, post)))
+}
+
+// opDiscardedParams: a governance proposal whose first message updates the onboarding parameters (through the real
+// MsgUpdateParams handler, one message server per application instance) and whose later message fails: the handler
+// succeeds on a branch that is then discarded. Nothing may remain, in the store or in process memory: the state observed
+// through the keeper afterwards is the state before, and the packets that follow are handled under the committed parameters.
+func (s *obSuite) opDiscardedParams() {
+	r, w := s.r, s.w
+	if s.obms == nil {
+		s.obms = onboardingkeeper.NewMsgServerImpl(*w.App.OnboardingKeeper)
+	}
+	cur := w.App.OnboardingKeeper.GetParams(w.Ctx)
+	np := onboardingtypes.Params{EnableOnboarding: cur.EnableOnboarding, AutoSwapThreshold: cur.AutoSwapThreshold,
+		WhitelistedChannels: append([]string{}, cur.WhitelistedChannels...)}
+	switch r.Intn(4) {
+	case 0:
+		np.EnableOnboarding = !cur.EnableOnboarding
+	case 1: // the other channel set
+		has := map[string]bool{}
+		for _, c := range cur.WhitelistedChannels {
+			has[c] = true
+		}
+		np.WhitelistedChannels = nil
+		for _, c := range []string{"channel-0", "channel-1", "channel-7"} {
+			if !has[c] {
+				np.WhitelistedChannels = append(np.WhitelistedChannels, c)
+			}
+		}
+	case 2:
+		np.AutoSwapThreshold = cur.AutoSwapThreshold.MulRaw(3).AddRaw(7)
+	default:
+		np.EnableOnboarding = true
+		np.WhitelistedChannels = []string{"channel-0", "channel-1", "channel-7"}
+		np.AutoSwapThreshold = sdkmath.NewInt(int64(1 + r.Intn(1000)))
+	}
+	auth := authtypes.NewModuleAddress(govtypes.ModuleName).String()
+	preCs, preOb, pre := s.cs.modState(), s.obState(), w.Snapshot()
+	hok := false
+	out := w.Deliver(func(ctx sdk.Context) error {
+		_, err := s.obms.UpdateParams(ctx, &onboardingtypes.MsgUpdateParams{Authority: auth, Params: np})
+		if err == nil {
+			hok = true
+			return fmt.Errorf("a later message of the transaction failed")
+		}
+		return err
+	})
+	if hok {
+		out.Class = "later"
+	}
+	en := 0
+	if np.EnableOnboarding {
+		en = 1
+	}
+	var chs []string
+	for _, c := range np.WhitelistedChannels {
+		chs = append(chs, tokenSafe(c))
+	}
+	s.stat["discarded-params"]++
+	s.emit("obparams", fmt.Sprintf("en=%d thr=%s ch=%s later=1", en, np.AutoSwapThreshold, strings.Join(chs, ",")), out.String(), "", preCs, preOb, pre)
 }
 
 // opSend: a plain bank transfer (changes the recipient's standard-coin balance between packets, donates to a pool, …)
@@ -766,11 +828,13 @@ func runOnboarding(seed uint64, nOps int, outPath string) map[string]int {
 			s.newEpisode()
 			s.sync()
 			for i := 0; i < 60 && s.t.seq < nOps; i++ {
-				switch k := s.r.Intn(20); {
+				switch k := s.r.Intn(21); {
 				case k < 17:
 					s.opRecv()
 				case k < 19:
 					s.opTrade()
+				case k == 20:
+					s.opDiscardedParams()
 				default:
 					s.opSend(s.w.Users[0], s.w.Users[1+s.r.Intn(4)], s.std, s.pickAmount(s.coins[0], sdkmath.OneInt()))
 				}
